@@ -20,6 +20,10 @@ func (f *fnTrans) call(ins ssa.Instruction, c *ssa.CallCommon, res *ssa.Call) {
 		f.binaryWrite(ins, c, res)
 		return
 	}
+	if name == "(*github.com/blugelabs/bluge_segment_api.Data).WriteTo" {
+		f.dataWriteTo(ins, c, res)
+		return
+	}
 	sig := c.Signature()
 	var args []Term
 	var argT []types.Type
@@ -366,9 +370,37 @@ func (f *fnTrans) binaryWrite(ins ssa.Instruction, c *ssa.CallCommon, res *ssa.C
 		f.unsupported("prelude lacks spec function %s", fn)
 	}
 	f.factHere(Term{fmt.Sprintf("(forall ((i Int)) (! (and (<= 0 (select %s i)) (<= (select %s i) 255)) :pattern ((select %s i))))", arr.S, arr.S, arr.S), SBool})
+	rts := f.invokeWrite(ins, c.Args[0], w, p)
+	if res != nil && len(rts) == 2 {
+		f.vals[res] = rts[1]
+	}
+}
+
+// dataWriteTo expands (*segment.Data).WriteTo(w) into one w.Write of the whole image
+// (memory-backed data does exactly that; file-backed data copies it in pieces, which is
+// the same for every writer whose state is a fold over the bytes it accepts). Trusted.
+func (f *fnTrans) dataWriteTo(ins ssa.Instruction, c *ssa.CallCommon, res *ssa.Call) {
+	d := f.val(c.Args[0])
+	w := f.val(c.Args[1])
+	f.noteAssumed("trusted expansion: (*segment.Data).WriteTo(w) == one w.Write of the data's whole byte image")
+	f.safety("nil", "WriteTo on nil data", ins.Pos(), Ne(d, IntLit(0)))
+	r := f.alloc()
+	h := f.w.ElemHeap(types.Typ[types.Uint8])
+	dl := Select(f.heap("X$_$dlen"), d)
+	f.setHeap(h, Store(f.heap(h), r, Select(f.heap("X$_$dbytes"), d)))
+	p := f.define("datap", MkSlice(r, IntLit(0), dl, dl))
+	f.factHere(Ge(dl, IntLit(0)))
+	rts := f.invokeWrite(ins, c.Args[1], w, p)
+	if res != nil && len(rts) == 2 {
+		f.tupleVals[res] = rts
+	}
+}
+
+// invokeWrite performs w.Write(p) through the io.Writer interface (with dynamic dispatch).
+func (f *fnTrans) invokeWrite(ins ssa.Instruction, wv ssa.Value, w, p Term) []Term {
 	name := "(io.Writer).Write"
 	ct := f.w.Spec.Contracts[name]
-	wt := c.Args[0].Type()
+	wt := wv.Type()
 	iface := wt.Underlying().(*types.Interface)
 	var impls []*ssa.Function
 	var mods []string
@@ -402,10 +434,7 @@ func (f *fnTrans) binaryWrite(ins ssa.Instruction, c *ssa.CallCommon, res *ssa.C
 	}
 	sort.Strings(mods)
 	byteSlice := types.NewSlice(types.Typ[types.Uint8])
-	rts := f.applyCall(ins, name, ct, wsig, true, []Term{w, p}, []types.Type{wt, byteSlice}, nil, impls, mods, false)
-	if res != nil && len(rts) == 2 {
-		f.vals[res] = rts[1]
-	}
+	return f.applyCall(ins, name, ct, wsig, true, []Term{w, p}, []types.Type{wt, byteSlice}, nil, impls, mods, false)
 }
 
 func shortName(n string) string {
